@@ -94,6 +94,39 @@ def putFile (s : FS) (p : Path) (c : Content) : FS :=
   let s := exec s (.unlink p)
   run s [.creat p 1000000, .write 1000000 c, .fsync 1000000, .close 1000000]
 
+/-- Re-tabulate the state between saves (same function values on every path,
+inode and descriptor seen so far), so that look-ups do not walk an ever longer
+chain of `upd` closures over a block of saves.  In addition the settled content
+of `dest` — by now a list of one token per chunk of the save that wrote it — is
+renamed to the single token `ver`: between saves a version is opaque, and the
+next save's instants are then compared against a one-element list.
+Representation only. -/
+def compact (s : FS) (dest : Path) (ver : Nat) (known : List Path) (fdsSeen : List Nat) : FS :=
+  let nameTbl := (dedup known).filterMap (fun p => (s.names p).map (fun i => (p, i)))
+  let inodes := List.range s.next
+  let relabel : Option Nat :=
+    match s.names dest with
+    | some i =>
+      if !s.dirty i && s.cache i == s.disk i && (s.cache i).length > 1 &&
+         fdsSeen.all (fun fd => match s.fds fd with | some (j, _) => j != i | none => true)
+      then some i else none
+    | none => none
+  let content (f : Nat → Content) (i : Nat) : Content := if relabel == some i then [ver] else f i
+  let cacheA := (inodes.map (content s.cache)).toArray
+  let diskA := (inodes.map (content s.disk)).toArray
+  let dirtyA := (inodes.map s.dirty).toArray
+  let fdTbl := fdsSeen.eraseDups.filterMap (fun fd => (s.fds fd).map (fun v => (fd, v)))
+  { names := fun p => nameTbl.lookup p,
+    cache := fun i => cacheA.getD i [],
+    disk := fun i => diskA.getD i [],
+    dirty := fun i => dirtyA.getD i false,
+    fds := fun fd => fdTbl.lookup fd,
+    next := s.next }
+
+def fdsOf (es : List Sys) : List Nat :=
+  es.filterMap fun
+    | .creat _ fd => some fd | .openWr _ fd _ => some fd | _ => none
+
 def paths (es : List Sys) : List Path :=
   es.flatMap fun
     | .creat p _ => [p] | .openWr p _ _ => [p] | .rename a b => [a, b] | .unlink a => [a]
@@ -168,7 +201,8 @@ def stepSave (st : St) (ins impl : List String) : Option (St × String) := do
           if committed && wrote != newLen then some "C14.length"
           else if !finalOK then some "C14.final"
           else none
-      pure ({ st with fs := final, known := dedup known, saveNo := saveNo }, verdict agree spec modelStr)
+      pure ({ st with fs := compact final st.dest (2305843009213693952 + saveNo) known (1000000 :: fdsOf evs), known := dedup known, saveNo := saveNo },
+        verdict agree spec modelStr)
     | _ => none
   | _, _ => none
 
